@@ -54,8 +54,8 @@ check("C01", "reads return the latest write through every layer", [
        "<=5 steps, 3 keys (1,1,2 bytes)"),
     ob("VerifC01_ReadLatestTx", "pkg/engine", "the same with read-write transactions (commit/rollback, 1-3 ops) and 2-entry batches in the mix",
        "<=2 steps over put/tx/batch/flush, 2 keys", "<=3 steps"),
-    ob("VerifC01_ValueShapes", "pkg/engine", "empty, nil, 1- and 2-byte values through memtable, flush and reopen read back as found",
-       "<=3 steps over put(4 value shapes)/flush/reopen, 2 keys", "<=4 steps"),
+    ob("VerifC01_ValueShapes", "pkg/engine", "empty, nil, 1- and 2-byte values through memtable, flush and reopen read back as found, also when the put follows a delete of the key",
+       "<=3 steps over put(4 value shapes)/delete/flush/reopen, 2 keys", "<=4 steps"),
     ob("VerifC01_LargeValues", "pkg/engine", "values at the log's fragmenting boundary (+-1) and a 64 KiB value, mixed with small puts, flush and reopen: each key reads back exactly its latest put",
        "<=2 steps, 2 keys, contents concrete pattern with symbolic first/last byte", "<=3 steps", q={"budget_s": 300}),
     ob("VerifC01_ReadFromTables", "pkg/engine", "programs of put+flush / delete+flush / retire-flushed-logs+reopen steps: reads are served by the SSTables and their load order, not by replayed memtables",
@@ -91,6 +91,8 @@ check("C03", "transactions are all-or-nothing", [
        "3 puts of 30 000 bytes; every crash point, torn lengths: 8 representatives", "36 puts of 30 000 bytes (1.08 MB)", q={"budget_s": 300, "stepcap": 400000000}, t={"budget_s": 1500, "stepcap": 400000000}, no_validate=True),
     ob("VerifC03_CommitVsReader", "pkg/engine", "a committing transaction (2 keys) vs. a reader doing two plain gets in either order or inside a read-only transaction: first read new => second read new; a read-only transaction sees one state",
        "2 threads, preemption bound 1", "preemption bound 2", q=P1, t=P2, no_validate=True),
+    ob("VerifC17_TxCallSequences", "pkg/transaction", "every call sequence over one read-write or read-only transaction (Get/Put/Delete/scan/Commit/Rollback): lock held in the right mode until the first finish and free afterwards, every storage access under the lock, finish at most once, closed error and no effect afterwards, read-only refuses writes, own writes read back, exactly one last-op-wins batch at commit",
+       "<=4 calls, 2 keys", "<=5 calls"),
 ], [SIMFS, CLOCK, HASH, BLOOM, RAND, LOG, TIERA], [])
 
 check("C04", "transactions are serializable with respect to each other", [
@@ -108,7 +110,7 @@ check("C05", "scans: exactly the live keys, once, in order, within bounds", [
     ob("VerifC05_MergeNewestWins", "pkg/common/iterator/composite", "HierarchicalIterator over two sorted sources with tombstones: SeekToFirst/Next*, Seek(t)", "<=2 keys per source, 1-byte keys"),
     ob("VerifC05_BoundedExact", "pkg/common/iterator/bounded", "BoundedIterator with optional symbolic bounds: iteration, Seek(t), SeekToLast", "<=3 keys"),
     ob("VerifC05_FilteredExact", "pkg/common/iterator/filtered", "prefix/suffix filtered iteration incl. Seek/SeekToLast", "<=3 two-byte keys"),
-    ob("VerifC05_MemtableAdapter", "pkg/memtable", "IteratorAdapter over a memtable holding several versions per key: SeekToLast / Seek(t) land on the newest version of the right key; forward iteration yields every version, keys ascending, newer first",
+    ob("VerifC05_MemtableAdapter", "pkg/memtable", "IteratorAdapter over a memtable holding several versions per key: SeekToLast / Seek(t) land on the newest version of the right key; Seek(t) on an iterator that was used before (0-3 steps from the start) lands like a fresh Seek; forward iteration yields every version, keys ascending, newer first",
        "<=3 puts/deletes over 2 keys"),
     ob("VerifC05_MemtableScanSurvivesWrites", "pkg/memtable", "a scan over the active memtable interleaved operation by operation with another client's writes (anywhere relative to the scan position): strictly ascending, duplicate-free, yields every entry that existed before it started",
        "<=3 pre-existing entries, <=2 interleaved writes at any of the scan's steps"),
@@ -297,6 +299,8 @@ check("C18", "memtable ordered multi-version map", [
     ob("VerifC18_FindHighestSeq", "pkg/memtable", "SkipList.Insert/Find: entry of highest sequence number wins, absent keys not found",
        "<=3 inserts, free 1-byte keys, arbitrary 64-bit sequence numbers, tower height <=2", "same, tower height <=3",
        q={"maxzeros": 1}, t={"maxzeros": 2}),
+    ob("VerifC05_MemtableAdapter", "pkg/memtable", "IteratorAdapter over a memtable holding several versions per key: SeekToLast / Seek(t) land on the newest version of the right key; Seek(t) on an iterator that was used before (0-3 steps from the start) lands like a fresh Seek; forward iteration yields every version, keys ascending, newer first",
+       "<=3 puts/deletes over 2 keys"),
 ], [RAND, TIERA], ["tower heights 4-12", "more than one concurrent writer (excluded by the property)"])
 
 json.dump(C, open("/verif/checks.json", "w"), indent=1)
